@@ -66,6 +66,46 @@ func selectTie(r *Result, dp *DriverPool, rng *rand.Rand, n int) error {
 			}
 		}
 		r.Add("select_proposals", nx)
+		// HashTable4: the candidate distances themselves, recomputed by the Lean hash-table model (hash chains,
+		// rolling hash) from the bytes discarded so far, at a few sampled proposals
+		if alg == lzma.HashTable4 {
+			pos := 0 // bytes discarded so far
+			var look []byte
+			consumed := 0
+			_ = look
+			for j, c := range cmds {
+				switch {
+				case strings.HasPrefix(c, "w:"):
+					var k int
+					fmt.Sscanf(obs[j], "%d,", &k)
+					consumed += k
+				case strings.HasPrefix(c, "d:"):
+					var k int
+					fmt.Sscanf(c, "d:%d", &k)
+					pos += k
+				case strings.HasPrefix(c, "nxh:") && rng.Intn(60) == 0:
+					f := strings.Split(c, ":")
+					hi := consumed
+					if hi > pos+273 {
+						hi = pos + 273
+					}
+					rep, err := dp.Ask(fmt.Sprintf("htcands %d %s %s", dictCap, hxe(data[:pos]), hxe(data[pos:hi])))
+					if err != nil {
+						return err
+					}
+					want := f[2]
+					if want == "-" {
+						want = ""
+					}
+					r.Inc("hashtable_candidate_queries")
+					if strings.TrimSpace(rep) != want {
+						r.Violate("broken-correspondence", "hashtable-model candidates", cs,
+							fmt.Sprintf("at position %d the real hash table delivers candidate distances [%s], the Lean model of the hash table [%s]", pos, want, strings.TrimSpace(rep)))
+						break
+					}
+				}
+			}
+		}
 	}
 	return nil
 }
